@@ -834,6 +834,136 @@ Proof.
   - apply (IH _ _ H2 H4).
 Qed.
 
+(** ** The specification's comparison of reduced cards *)
+
+Lemma vnorm_other k v : String.eqb k version_key = false -> vnorm k v = v.
+Proof. intros H. unfold vnorm. rewrite H. reflexivity. Qed.
+
+Lemma vnorm_none k : vnorm k None = None.
+Proof. unfold vnorm. destruct (String.eqb k version_key); reflexivity. Qed.
+
+Lemma vnorm_some_in k c v : vnorm k (card_assoc k c) = Some v -> In k (map fst c).
+Proof.
+  destruct (card_assoc k c) as [x|] eqn:E.
+  - intros _. apply (card_assoc_in k c x E).
+  - rewrite vnorm_none. discriminate.
+Qed.
+
+(** reduced cards compare equal iff they are the same map up to the VERSION slot *)
+Lemma card_sim_spec a b :
+  card_sim a b = true <-> forall k, vnorm k (card_assoc k a) = vnorm k (card_assoc k b).
+Proof.
+  unfold card_sim. rewrite forallb_forall. split.
+  - intros H k.
+    destruct (vnorm k (card_assoc k a)) as [x|] eqn:Ea.
+    + rewrite <- Ea. apply opt_fields_eqb_eq. apply H. apply in_or_app. left.
+      apply (vnorm_some_in k a x Ea).
+    + destruct (vnorm k (card_assoc k b)) as [y|] eqn:Eb; [|reflexivity].
+      rewrite <- Ea, <- Eb. apply opt_fields_eqb_eq. apply H. apply in_or_app. right.
+      apply (vnorm_some_in k b y Eb).
+  - intros H k _. apply opt_fields_eqb_eq. apply H.
+Qed.
+
+Lemma card_sim_refl a : card_sim a a = true.
+Proof. apply card_sim_spec. reflexivity. Qed.
+
+Lemma card_sim_trans a b c : card_sim a b = true -> card_sim b c = true -> card_sim a c = true.
+Proof. rewrite !card_sim_spec. intros H1 H2 k. rewrite H1. apply H2. Qed.
+
+(** equal cards are in particular similar *)
+Lemma card_eqb_sim a b : card_eqb a b = true -> card_sim a b = true.
+Proof. rewrite card_eqb_spec, card_sim_spec. intros H k. rewrite H. reflexivity. Qed.
+
+Lemma object_sim_refl a : object_sim a a = true.
+Proof.
+  unfold object_sim. rewrite !String.eqb_refl, !Z.eqb_refl, card_sim_refl. reflexivity.
+Qed.
+
+Lemma object_eqb_sim a b : object_eqb a b = true -> object_sim a b = true.
+Proof.
+  unfold object_eqb, object_sim. rewrite !Bool.andb_true_iff.
+  intros [[[P E] M] C]. repeat split; try assumption. apply card_eqb_sim. exact C.
+Qed.
+
+Lemma object_sim_trans a b c :
+  object_sim a b = true -> object_sim b c = true -> object_sim a c = true.
+Proof.
+  unfold object_sim. rewrite !Bool.andb_true_iff, !String.eqb_eq, !Z.eqb_eq.
+  intros [[[P1 E1] M1] C1] [[[P2 E2] M2] C2].
+  repeat split; try congruence. apply (card_sim_trans _ _ _ C1 C2).
+Qed.
+
+Lemma result_eqb_refl r a : result_eqb r a a = true.
+Proof. unfold result_eqb. destruct (dr_whole r); [apply object_eqb_refl | apply object_sim_refl]. Qed.
+
+(** an accepted object stays accepted when replaced by an equal one *)
+Lemma result_eqb_trans_eq r a b c :
+  result_eqb r a b = true -> object_eqb b c = true -> result_eqb r a c = true.
+Proof.
+  unfold result_eqb. destruct (dr_whole r); intros H1 H2.
+  - apply (object_eqb_trans _ _ _ H1 H2).
+  - apply (object_sim_trans _ _ _ H1 (object_eqb_sim _ _ H2)).
+Qed.
+
+Lemma results_eqb_refl r l : results_eqb r l l = true.
+Proof.
+  unfold results_eqb. induction l as [|a l IH]; cbn [list_eqb]; [reflexivity|].
+  rewrite result_eqb_refl, IH. reflexivity.
+Qed.
+
+Lemma results_eqb_trans_eq r : forall a b c,
+  results_eqb r a b = true -> objs_eqb b c = true -> results_eqb r a c = true.
+Proof.
+  unfold results_eqb, objs_eqb. induction a as [|x a IH]; intros [|y b] [|z c]; cbn [list_eqb];
+    try discriminate; try reflexivity.
+  rewrite !Bool.andb_true_iff. intros [H1 H2] [H3 H4]. split.
+  - apply (result_eqb_trans_eq _ _ _ _ H1 H3).
+  - apply (IH _ _ H2 H4).
+Qed.
+
+(** exact equality of the returned list is in particular accepted *)
+Lemma objs_eqb_results r a b : objs_eqb a b = true -> results_eqb r a b = true.
+Proof. intros H. apply (results_eqb_trans_eq r a a b (results_eqb_refl r a) H). Qed.
+
+(** What the specification accepts as the reduction of [o]: the same path, entity
+    tag and modification time, every requested name the source binds bound to
+    the same field list, nothing else - and VERSION bound to the source's
+    VERSION fields, where a source without VERSION fields may also leave the
+    key unbound. *)
+Lemma object_sim_project r o p :
+  dr_whole r = false ->
+  (object_sim (project r o) p = true <->
+   o_path p = o_path o /\ o_etag p = o_etag o /\ o_mtime p = o_mtime o /\
+   forall k,
+     if String.eqb k version_key
+     then card_assoc k (o_card p) = Some (card_fields version_key (o_card o)) \/
+          (card_fields version_key (o_card o) = [] /\ card_assoc k (o_card p) = None)
+     else card_assoc k (o_card p) =
+          if existsb (String.eqb k) (dr_props r) then card_assoc k (o_card o) else None).
+Proof.
+  intros Hw. unfold object_sim, project. rewrite Hw. cbn [o_path o_etag o_mtime o_card].
+  rewrite !Bool.andb_true_iff, !String.eqb_eq, Z.eqb_eq, card_sim_spec.
+  split.
+  - intros [[[P E] M] C]. repeat split; try (symmetry; assumption).
+    intros k. specialize (C k). rewrite project_card_assoc in C.
+    destruct (String.eqb k version_key) eqn:Ev.
+    + unfold vnorm in C. rewrite Ev in C.
+      destruct (card_fields version_key (o_card o)) as [|f fs].
+      * destruct (card_assoc k (o_card p)) as [[|g gs]|]; try discriminate.
+        -- left. reflexivity.
+        -- right. split; reflexivity.
+      * destruct (card_assoc k (o_card p)) as [[|g gs]|]; try discriminate.
+        left. symmetry. exact C.
+    + rewrite !vnorm_other in C by exact Ev. symmetry. exact C.
+  - intros [P [E [M C]]]. repeat split; try (symmetry; assumption).
+    intros k. specialize (C k). rewrite project_card_assoc.
+    destruct (String.eqb k version_key) eqn:Ev.
+    + unfold vnorm. rewrite Ev. destruct C as [C | [C1 C2]].
+      * rewrite C. reflexivity.
+      * rewrite C1, C2. reflexivity.
+    + rewrite !vnorm_other by exact Ev. symmetry. exact C.
+Qed.
+
 Lemma mobs_eqb_eq a b : mobs_eqb a b = true -> a = b.
 Proof.
   destruct a as [x| | |], b as [y| | |]; cbn [mobs_eqb]; try discriminate; try reflexivity.
@@ -854,22 +984,25 @@ Proof.
   - contradiction.
 Qed.
 
+Lemma in_domain_safe q os : in_domain_filter (Some q) os = true -> safe_request q os.
+Proof.
+  cbn [in_domain_filter]. unfold safe_request_b. intros Hd.
+  apply Bool.orb_true_iff in Hd. destruct Hd as [Hd|Hd].
+  - left. exact Hd.
+  - right. unfold no_empty_card, no_empty_card_b in *. rewrite forallb_forall in Hd.
+    apply Forall_forall. intros o Ho. specialize (Hd o Ho).
+    apply Bool.negb_true_iff in Hd. apply is_nil_false. exact Hd.
+Qed.
+
 (** ... and on every query and object list filterProperties is defined on. *)
 Lemma spec_ok_filter_model q os :
   in_domain_filter q os = true ->
   spec_ok_filter q os (obs_of_filter (filter_objs q os)) = true.
 Proof.
-  destruct q as [q|]; cbn [in_domain_filter spec_ok_filter].
-  - intros Hd.
-    assert (Hs : safe_request q os).
-    { unfold safe_request_b in Hd. apply Bool.orb_true_iff in Hd. destruct Hd as [Hd|Hd].
-      - left. exact Hd.
-      - right. unfold no_empty_card, no_empty_card_b in *. rewrite forallb_forall in Hd.
-        apply Forall_forall. intros o Ho. specialize (Hd o Ho).
-        apply Bool.negb_true_iff in Hd. apply is_nil_false. exact Hd. }
-    pose proof (filter_refines q os Hs) as R.
+  destruct q as [q|]; cbn [spec_ok_filter].
+  - intros Hd. pose proof (filter_refines q os (in_domain_safe q os Hd)) as R.
     destruct (filter_objs (Some q) os) as [l|e|]; cbn [obs_of_filter].
-    + rewrite R. apply objs_eqb_refl.
+    + rewrite R. apply results_eqb_refl.
     + rewrite R. reflexivity.
     + contradiction.
   - intros _. cbn [filter_objs obs_of_filter fobs_eqb]. apply objs_eqb_refl.
@@ -893,8 +1026,102 @@ Proof.
     cbn [fobs_eqb] in H; try discriminate; try exact M.
   destruct q as [q|]; cbn [spec_ok_filter fobs_eqb] in *.
   - destruct (spec_filter q os) as [e|]; [|discriminate].
-    apply (objs_eqb_trans _ _ _ M H).
+    apply (results_eqb_trans_eq _ _ _ _ M H).
   - apply (objs_eqb_trans _ _ _ M H).
+Qed.
+
+(** ** The verdicts the oracle reports, on every input *)
+
+(** agreement with the model entails the reported verdict, inside the domain and outside *)
+Lemma agree_implies_spec_verdict_match q ao ob :
+  model_agrees_match q ao ob = true -> spec_verdict_match q ao ob = true.
+Proof.
+  intros H. destruct ao as [o|]; cbn [spec_verdict_match].
+  - apply agree_implies_spec_ok_match. exact H.
+  - rewrite H. apply Bool.orb_true_r.
+Qed.
+
+Lemma agree_implies_spec_verdict_filter q os ob :
+  model_agrees_filter q os ob = true -> spec_verdict_filter q os ob = true.
+Proof.
+  intros H. unfold spec_verdict_filter.
+  destruct (in_domain_filter q os) eqn:Hd.
+  - rewrite (agree_implies_spec_ok_filter q os ob Hd H). reflexivity.
+  - rewrite H. cbn [negb andb]. apply Bool.orb_true_r.
+Qed.
+
+Lemma model_agrees_match_model q ao :
+  model_agrees_match q ao (obs_of_match (match_query q ao)) = true.
+Proof.
+  unfold model_agrees_match. destruct (match_query q ao) as [[|]|e|]; reflexivity.
+Qed.
+
+Lemma model_agrees_filter_model q os :
+  model_agrees_filter q os (obs_of_filter (filter_objs q os)) = true.
+Proof.
+  unfold model_agrees_filter. destruct (filter_objs q os) as [l|e|];
+    cbn [obs_of_filter fobs_eqb]; try reflexivity. apply objs_eqb_refl.
+Qed.
+
+(** the unchanged code (its model) meets the relaxed specification on every input:
+    nil objects, empty cards and unknown attributes included *)
+Lemma spec_verdict_match_model q ao :
+  spec_verdict_match q ao (obs_of_match (match_query q ao)) = true.
+Proof. apply agree_implies_spec_verdict_match. apply model_agrees_match_model. Qed.
+
+Lemma spec_verdict_filter_model q os :
+  spec_verdict_filter q os (obs_of_filter (filter_objs q os)) = true.
+Proof. apply agree_implies_spec_verdict_filter. apply model_agrees_filter_model. Qed.
+
+(** inside the domain the reported verdict is the specification alone: nothing is
+    accepted there merely because the model does it *)
+Lemma spec_verdict_match_in_domain q o ob :
+  spec_verdict_match q (Some o) ob = spec_ok_match q o ob.
+Proof. reflexivity. Qed.
+
+Lemma spec_verdict_filter_in_domain q os ob :
+  in_domain_filter q os = true -> spec_verdict_filter q os ob = spec_ok_filter q os ob.
+Proof.
+  intros Hd. unfold spec_verdict_filter. rewrite Hd. cbn [negb andb]. apply Bool.orb_false_r.
+Qed.
+
+(** An error is accepted for every query carrying an unknown test or match type
+    anywhere, whether a lazy evaluation would reach it or not, whatever the
+    object(s) - also a nil object or an empty card. *)
+Lemma unknown_error_accepted q :
+  all_known_b q = false ->
+  (forall ao, spec_verdict_match (Some q) ao MErr = true) /\
+  (forall os, spec_verdict_filter (Some q) os FErr = true).
+Proof.
+  intros H. split.
+  - intros [o|]; cbn [spec_verdict_match spec_ok_match spec_ok_match_nil]; rewrite H; reflexivity.
+  - intros os. unfold spec_verdict_filter. cbn [spec_ok_filter]. rewrite H. reflexivity.
+Qed.
+
+(** ... and for no other query: a query of known attributes only must be answered
+    (a panic or an error on it is accepted nowhere but where the model panics). *)
+Lemma known_error_rejected q o os :
+  all_known_b q = true ->
+  spec_verdict_match (Some q) (Some o) MErr = false /\
+  (in_domain_filter (Some q) os = true -> spec_verdict_filter (Some q) os FErr = false).
+Proof.
+  intros H. split.
+  - cbn [spec_verdict_match spec_ok_match]. rewrite H. reflexivity.
+  - intros Hd. rewrite (spec_verdict_filter_in_domain _ _ _ Hd). cbn [spec_ok_filter].
+    rewrite H. reflexivity.
+Qed.
+
+(** A verdict is accepted only if it is the one the three-valued semantics
+    defines, on every query - with unknown attributes or not. *)
+Lemma verdict_accepted_iff q o b :
+  spec_verdict_match (Some q) (Some o) (MOk b) = true <-> rfc6352_query q (o_card o) = Some b.
+Proof.
+  cbn [spec_verdict_match spec_ok_match].
+  destruct (rfc6352_query q (o_card o)) as [x|]; cbn [opt_bool_eqb].
+  - split.
+    + intros H. apply Bool.eqb_prop in H. subst. reflexivity.
+    + intros H. inversion H. apply Bool.eqb_reflx.
+  - split; discriminate.
 Qed.
 
 (** * Witnesses *)
@@ -959,6 +1186,50 @@ Lemma lazy_unknown_not_reported :
   rfc6352_query w_q_lazy [("FN", [fld "a"])] = Some true /\
   match_query (Some w_q_lazy) (Some (mkobj [("FN", [fld "b"])])) = Err 500 /\
   rfc6352_query w_q_lazy [("FN", [fld "b"])] = None.
+Proof. vm_compute. repeat split. Qed.
+
+(** the two property-preserving variants of the code that the exact-agreement
+    reading rejected are accepted by the specification, and the corresponding
+    wrong behaviours are not *)
+Definition w_q_inner_unknown : query :=
+  {| q_data := {| dr_props := ["X"]; dr_allprop := false |};
+     q_filters := [ {| pf_name := "X"; pf_test := "all"; pf_not_defined := false; pf_texts := [] |} ];
+     q_test := "allof"; q_limit := 0 |}.
+Definition w_obj_nover : object := mkobj [("FN", [fld "a"])].
+Definition w_q_fn_notdef_x : query :=
+  {| q_data := {| dr_props := ["FN"]; dr_allprop := false |};
+     q_filters := [ {| pf_name := "X"; pf_test := ""; pf_not_defined := true; pf_texts := [] |} ];
+     q_test := ""; q_limit := 0 |}.
+
+Lemma relaxed_witnesses :
+  (* eager validation: an error for an unknown inner test that lazy evaluation
+     does not reach (nil object: the model panics; object: the model answers) *)
+  match_query (Some w_q_inner_unknown) None = Panic /\
+  spec_verdict_match (Some w_q_inner_unknown) None MErr = true /\
+  spec_verdict_match (Some w_q_inner_unknown) None MPanic = true /\
+  spec_verdict_match (Some w_q_inner_unknown) None (MOk false) = false /\
+  match_query (Some w_q_inner_unknown) (Some w_obj_nover) = Ok false /\
+  spec_verdict_match (Some w_q_inner_unknown) (Some w_obj_nover) MErr = true /\
+  spec_verdict_match (Some w_q_inner_unknown) (Some w_obj_nover) (MOk false) = true /\
+  spec_verdict_match (Some w_q_inner_unknown) (Some w_obj_nover) (MOk true) = false /\
+  (* a card without VERSION: reduced with or without the VERSION key *)
+  spec_verdict_filter (Some w_q_fn_notdef_x) [w_obj_nover] (FOk [mkobj [("VERSION", []); ("FN", [fld "a"])]]) = true /\
+  spec_verdict_filter (Some w_q_fn_notdef_x) [w_obj_nover] (FOk [mkobj [("FN", [fld "a"])]]) = true /\
+  spec_verdict_filter (Some w_q_fn_notdef_x) [w_obj_nover] (FOk [mkobj [("VERSION", [fld "3.0"]); ("FN", [fld "a"])]]) = false /\
+  spec_verdict_filter (Some w_q_fn_notdef_x) [w_obj_nover] (FOk [mkobj []]) = false /\
+  (* a card with VERSION: it must be there, with its values *)
+  spec_verdict_filter (Some w_q_fn_notdef_x) [w_obj] (FOk [mkobj [("VERSION", [fld "4.0"])]]) = true /\
+  spec_verdict_filter (Some w_q_fn_notdef_x) [w_obj] (FOk [mkobj []]) = false /\
+  spec_verdict_filter (Some w_q_fn_notdef_x) [w_obj] (FOk [mkobj [("VERSION", [])]]) = false /\
+  (* a matching empty card: the model panics; the empty reduction is accepted too *)
+  filter_objs (Some w_q_fn_notdef_x) [mkobj []] = Panic /\
+  spec_verdict_filter (Some w_q_fn_notdef_x) [mkobj []] FPanic = true /\
+  spec_verdict_filter (Some w_q_fn_notdef_x) [mkobj []] (FOk [mkobj []]) = true /\
+  spec_verdict_filter (Some w_q_fn_notdef_x) [mkobj []] (FOk [mkobj [("VERSION", [])]]) = true /\
+  spec_verdict_filter (Some w_q_fn_notdef_x) [mkobj []] (FOk []) = false /\
+  spec_verdict_filter (Some w_q_fn_notdef_x) [mkobj []] FErr = false /\
+  (* where the model does not panic, a panic is never accepted *)
+  spec_verdict_filter (Some w_q_fn_notdef_x) [w_obj_nover] FPanic = false.
 Proof. vm_compute. repeat split. Qed.
 
 Lemma string_tests_spec s t :
